@@ -723,7 +723,11 @@ fn sieve_block_poly(s: &SieveMPQS, pol: &Poly, roots: [&[u32]; 2], st: &mut siev
     for (i, facs) in idxs.into_iter().zip(facss) {
         // Evaluate polynomial
         let (v, mut x) = pol.eval(st.offset + i as i64);
-        debug_assert!((x * x) % n == Uint::cast_from(Int::cast_from(*n) + Int::cast_from(v)) % n);
+        debug_assert!({
+            // x is not reduced yet: x * x can exceed 1024 bits for n above 250 bits.
+            let xr = x % n;
+            (xr * xr) % n == Uint::cast_from(Int::cast_from(*n) + Int::cast_from(v)) % n
+        });
         let Some(((p, q), factors)) = fbase::cofactor(s.fbase, &v, &facs, maxlarge, s.use_double)
         else {
             continue;
